@@ -121,6 +121,9 @@ impl<'tcx> Cx<'tcx> {
                 fo.set("name", J::s(f.name.to_string()));
                 let fty = tcx.type_of(f.did).instantiate_identity().skip_norm_wip();
                 fo.set("ty", J::s(ty_str(fty)));
+                if f.vis.is_public() {
+                    fo.set("pub", J::Bool(true));
+                }
                 fs.push(fo);
             }
             vo.set("fields", J::Arr(fs));
